@@ -360,3 +360,39 @@ def common_work():
 
 
 CHECKS["C13"] = check_c13
+
+
+# ------------------------------------------------------------------------------------------------
+# C10  envelope
+# ------------------------------------------------------------------------------------------------
+def check_c10(tier, t0):
+    from common import run_tlc, tlc_require_clean, extract_json_lines, workdir
+    wd = workdir("C10-%s" % tier)
+    cfg = "Envelope_thorough.cfg" if tier == "thorough" else "Envelope_quick.cfg"
+    mc = run_tlc("Envelope.tla", cfg, wd, timeout=1800)
+    if mc["violated"]:
+        raise ToolError("design-level invariant %s violated in Envelope.tla" % mc["violated"])
+    tlc_require_clean(mc, "Envelope")
+    cases = os.path.join(wd, "cases.ndjson")
+    n = extract_json_lines(mc["out_path"], cases)
+    os.remove(mc["out_path"])
+    out = os.path.join(wd, "out.json")
+    run_harness(["envelope", "--cases", cases, "--out", out])
+    s = json.load(open(out))
+    log("[C10] %d envelope cases, %d accepted and compared, %d mismatches" % (s["evaluated"], s["notes"].get("accepted", 0), len(s["violations"])))
+    cov = {
+        "states": mc["distinct"], "transitions": mc["generated"], "traces_validated_against_impl": 0,
+        "evaluations": s["evaluated"], "distinct_nontrivial": s["distinct_nontrivial"],
+        "rule": "5 application-header shapes (input P / PM / PMOOO, output with and without priority) x subsets (size <= MaxTags, "
+                "and the full set) of the 13 block-3 tags x subsets of the 8 block-5 tags x 17 near-miss / hostile-value faults; "
+                "non-trivial = anything but the plain input header without blocks 3 and 5",
+        "samples": s["samples"] or [{}],
+        "exhaustive": True, "exhaustive_scope": "the finite case space of %s" % cfg,
+    }
+    assumptions = ["documented block-2 lengths: input 17/18/21, output 46/47 characters; block 1 exactly 25 with numeric session and sequence",
+                   "tags are compared textually ({tag:value}) in the re-serialised block, order not required",
+                   "the text block ends at a line that starts with '-}'"]
+    return report("C10", tier, "model_checking", s["violations"], cov, assumptions, t0)
+
+
+CHECKS["C10"] = check_c10
